@@ -12,6 +12,34 @@ def run(tier, rep, replay=None):
     C.tlc_must(C.tlc(w, "MC_Policy", "Empty.cfg", timeout=600), "MC_Policy (NNF preserves the presence-rule semantics)")
     r1 = C.tlc_must(C.tlc(w, "CpAbe", "MC_CpAbe.cfg", workers=8, heap="6g", timeout=900), "MC_CpAbe")
     rep.add(states=r1.distinct, transitions=r1.generated)
+    # the secret sharing over the formula: correct and SECRET for every formula of up to three gates over Z_3; the variant that hands the
+    # AND gate's output value to one input and zero to the other keeps decryption working and loses secrecy - TLC must say so
+    C.tlc_must(C.tlc(w, "ShareTree", "MC_Share_ok.cfg", workers=4, timeout=900), "ShareTree (Correct, Secret)")
+    rb = C.tlc(w, "ShareTree", "MC_Share_bug.cfg", workers=4, timeout=900)
+    if "is false" not in rb.out or "Assumption" not in rb.out:
+        raise C.Infra("ShareTree: the seeded sharing deviation was not found:\n%s" % rb.tail(20))
+    tb = C.go_build_intree(w, "abe/cpabe/tkn20/internal/tkn")
+    sp = os.path.join(w, "share.ndjson")
+    C.run([tb, "-test.run", "TestVerifShare", "-test.count=1"], env=dict(os.environ, VERIF_OUT=sp, VERIF_SEED=str(C.SEED), VERIF_N="400" if thorough else "60"),
+          timeout=1500, what="in-tree share recorder")
+    slines = C.read_ndjson(sp)
+    d = os.path.join(w, "share")
+    os.makedirs(d, exist_ok=True)
+    C.stage_specs(d, "C20", "C12")
+    sbad, sr = C.validate_lines(d, "Trace_Share", "Lines.cfg", slines)
+    for i in sbad:
+        ln = slines[i]
+        kinds = "".join("A" if g[0] == 0 else "O" for g in ln["gates"])
+        rep.violation("share:%s:gates=%s" % ("panic" if ln["panics"] else "input-shares", kinds[:8]),
+                      {"observed": {"gates": ln["gates"], "note": ln["note"]}, "explain": "Formula.share does not follow the gate rules of ShareTree.tla (AND: one input gets the fresh random value, the other out - r; OR: both get out): the input shares differ from the ones TLC recomputes from the secret and the replayed random values"})
+    sgood = [l for i, l in enumerate(slines) if i not in set(sbad) and any(g[0] == 0 for g in l["gates"])]
+    if sgood:
+        x = copy.deepcopy(sgood[0])
+        x["shares"][0][0] = [(x["shares"][0][0][0] + 1) % 4096] + x["shares"][0][0][1:] if x["shares"][0][0] else [1]
+        b3, _ = C.validate_lines(d, "Trace_Share", "Lines.cfg", [x])
+        if b3 != [0]:
+            raise C.Infra("share binding canary accepted")
+    rep.add(share_lines=len(slines), share_and_gates=sum(1 for l in slines for g in l["gates"] if g[0] == 0))
     g = C.tlc_must(C.tlc(w, "Gen_CpAbe", "Gen3.cfg" if thorough else "Gen2.cfg", timeout=900), "Gen_CpAbe")
     pols = os.path.join(w, "policies.json")
     if thorough:
